@@ -5,44 +5,66 @@ CONFIG = {
                 "sharing a (key,time) with an older member (in particular every contiguous group) changes no read for any key/window/direction; every output file has "
                 "time-sorted, non-overlapping, non-empty blocks of <= size points within the writer's block-count limit; a crash after any number of rename/remove "
                 "steps of FileStore.replace, or an aborted/failed compaction, leaves reads unchanged and every input present or fully superseded; a witness shows the "
-                "jump hypothesis is needed. The model is diffed against the real Compactor/FileStore/Cache on generated file sets, and the real DefaultPlanner's "
-                "groups are checked against the hypothesis (runtime monitor) and compacted for real.",
-        "note": "Trusts Coq kernel, genconsts translator, the harness and its canonicalisers. Block boundaries of the real iterator (fast path, partial reads) are "
-                "observed and checked against the executable spec, not modelled; TSM byte layout, 2GB file roll-over, throttling, concurrency of WriteSnapshot are outside the model.",
+                "jump hypothesis is needed. Block level (tsmBatchKeyIterator.merge/combine<T>/chunk<T>, sortBlocks, read marks, fast path): an executable model mirrors the code "
+                "branch by branch; proved for every block list: sortBlocks never changes the newest-wins view (overlapping blocks keep file order, any length), the fast-path "
+                "condition implies pairwise disjoint strictly ordered blocks without tombstones or partial reads, the array merge is the logical overlay; the refinement "
+                "(output blocks concatenated = logical newest-wins merge minus tombstones; blocks non-empty, sorted, non-overlapping, <= size unless passed through; a "
+                "passed-through block is an unchanged input block and every output block is exactly the logical content of its time range) is proved for every well-formed "
+                "input, size >= 1 and mode whose sorted blocks are ordered by minTime, and for ALL inputs under the window condition (block_merge_refines_logical_partial: "
+                "the condition itself is not proved for layouts where a newer file's block starts before an overlapping older block). DefaultPlanner.PlanLevel is modelled and "
+                "every group it returns is proved to satisfy the hypotheses of the compaction theorem (contiguous whole generations in file order, no file in use, 59a68bc rule), "
+                "hence to preserve reads. The models are diffed against the real Compactor/FileStore/Cache/tsmBatchKeyIterator/DefaultPlanner on generated file sets, "
+                "block layouts and file-name sets; output blocks are compared block by block.",
+        "note": "Trusts Coq kernel, genconsts translator, the harness and its canonicalisers. Block boundaries of the real iterator are modelled (Blocks.v) and compared block by block; "
+                "the block-level refinement theorem is unconditional only for min-ordered layouts, the rest rests on correspondence. Plan/PlanOptimize (size rules) are monitored, not modelled; "
+                "TSM byte layout, 2GB file roll-over, throttling, concurrency of WriteSnapshot are outside the model.",
         "technique": "Coq proof (winner characterisation of the file overlay, invariants over directory step sequences) on a Gallina model + differential correspondence "
                      "against the real tsm1 Compactor/FileStore/Cache/DefaultPlanner",
     },
     "harness": "h_c09",
     "level": "proof",
-    "n": {"quick": 260, "thorough": 6000},
+    "n": {"quick": 200, "thorough": 6000},
     "shard": 24,
-    "extra_proof_files": ["ProofsA", "ProofsB", "ProofsC", "ProofsD"],
+    "extra_proof_files": ["ProofsA", "ProofsB", "ProofsC", "ProofsD", "BlocksProofs", "BlocksRefine", "BlocksClass", "PlannerProofs"],
     "harness_timeout": {"quick": 600, "thorough": 6000},
     "rule": "designed cases first (the non-contiguous witness, contiguous groups of the same files in both modes, blocks of exactly 1000 points with a tombstone cutting a "
             "full block, 42 small overlapping blocks of one key, a key of maximal length with all five value types, a crash at every step, every failure kind, a snapshot "
             "with duplicates and writes during the flush, the planner while a level-1 compaction is running, a whole-series FileStore.Delete issued from the compactor's "
             "file-name callback right after the block iterators were created (key held by the group / by no member, both modes), a roll-over at the writer's limit where the "
-            "last key has exactly 65535 one-point blocks; thorough tier adds 65534/65536 blocks, Size=1 full mode and roll-overs landing on a key boundary), then seeded generation: file sets of 1-6 generations x 1-3 "
+            "last key has exactly 65535 one-point blocks, block layouts of one key in both modes (disjoint full blocks, a newer file starting before an older overlapping block, partial reads of "
+            "a long sparse block, a tombstone on the first / a later block / the second file only, the same timestamps in three files, 42 single-point blocks over 3 files, an oversized input block, "
+            "a block fully covered by a tombstone, 1000-point blocks partially overlapped), 132 PlanLevel situations (59a68bc with plans kept acquired, orphan look-ahead, chunk boundaries 7/8/9/15/16/17 "
+            "and 3/4/5, multi-file generations, tombstones); thorough tier adds 65534/65536 blocks, Size=1 full mode and roll-overs landing on a key boundary), then seeded generation: file sets of 1-6 generations x 1-3 "
             "sequences written with the real TSMWriter (keys in only some files, overlapping blocks, blocks of exactly Size, tombstones through the real "
             "TSMReader.DeleteRange/Delete, 5 value types, times at both ends of the range), Size in {2,3,1000}, CompactFull/CompactFast on contiguous whole-generation "
             "groups (12% groups that jump over generations), crashes injected through the FileStore observer at a random step, failures (compactor closed, compactions "
             "disabled, corrupt block type, file missing from the plan), WriteSnapshot with a real Cache, and DefaultPlanner op sequences (PlanLevel/Plan/ForceFull/"
-            "PlanOptimize with groups kept acquired, files installed and kept groups compacted in between); distinct = distinct input description; non-trivial = the "
+            "PlanOptimize with groups kept acquired, files installed and kept groups compacted in between); 30% of the generated inputs are block layouts of ONE key over 2-6 "
+            "files (random overlap, sequential files with intruders, >20 small blocks, newer files holding older times, blocks of exactly Size and of up to 2*Size points, Size in {1..5,1000}, "
+            "tombstones cutting one block / a prefix / a suffix / everything / nothing, times at both ends of int64, all five types) compacted by CompactFull/CompactFast with the output blocks "
+            "(index entries + decoded values) compared block by block with Blocks.merge_key, 40% of the multi-key compaction sets are also checked at block level, 8% are PlanLevel op "
+            "sequences on generated file-name sets (3-30 generations, plans kept acquired, files added/removed) compared group by group with Planner.plan_level; distinct = distinct input description; non-trivial = the "
             "file set holds points and the group is non-empty (compact/crash/fail), the snapshot holds points (snap), a group was planned (plan)",
     "trusted_base": [
         "C09: reads are observed through the real FileStore.KeyCursor + ReadXBlock loop (ascending from lo, descending from hi), cache values through Cache.Values; the overlay of cache values over file values is computed in Coq (merge_lw), the engine's cursor code that does it is C02's subject",
-        "C09: block boundaries chosen by tsmBatchKeyIterator (fast path, pass-through of full blocks) are NOT modelled; the observed index entries and decoded blocks of every output are checked against the executable spec blocks_okb/entries_okb, the logical content per key against the model",
-        "C09: the planner is monitored, not modelled: every group the real DefaultPlanner returns is checked in Coq against the hypothesis of compact_preserves_reads (spec_plan) and compacted by the real Compactor with reads compared (CPlanned cases)",
+        "C09: block level: the model's input per file and key is what the real TSMReader reports after opening the file (TombstoneRange(key), key still indexed or not) next to the block layout the harness wrote; Coq checks that this view removes exactly what the written tombstones remove (reader_tombs_okb); indirectIndex.DeleteRange's range coalescing is not modelled",
+        "C09: block level: the unconditional refinement theorem covers min-ordered layouts; for the other layouts the theorem holds under the window condition (key_crux), which is NOT proved for them: there the check rests on the block-by-block comparison with the real iterator plus the executable spec (values = logical merge, blocks sorted/disjoint, <= size unless an unchanged input block)",
+        "C09: block level: error paths of the iterator (decode/encode/BlockCount errors), the re-use of block structs between keys and the maxTime fix-up for index entries that disagree with the block are not in the model (the model always initialises the read marks and assumes index entry = first/last timestamp, which TSMWriter guarantees); they are exercised by the fail cases and the multi-key block cases by correspondence only",
+        "C09: planner: PlanLevel is modelled (Planner.v) and compared group by group on a fake file store (names, tombstone flags, files held by unreleased plans computed by the harness); Plan and PlanOptimize (size/idle rules, the size-skip in PlanOptimize that does not close a group) are monitored, not modelled: every group the real DefaultPlanner returns is checked in Coq against the hypothesis of compact_preserves_reads (spec_plan) and compacted by the real Compactor with reads compared (CPlanned cases)",
         "C09: crash = error injected through tsdb.FileStoreObserver before the n-th rename/remove of a .tsm file, then the FileStore is closed and a new one opened on the directory; the order rename-before-remove and tsm-before-tombstone is re-read from the source by genconsts",
         "C09: roll-over cases (tens of thousands of blocks) are too large for the quadratic layer-A merge: they are judged by the executable spec on the implementation's observation (reads before = after, outputs within the block-count limit, fresh names) and the model of write/writeNewFiles (split_files) is compared on the implementation's own block stream; only ascending reads are taken (the cursor is quadratic in the number of blocks); the 2GB size limit is not exercised",
         "C09: a delete during a running compaction is injected only at the first file-name callback (before the first block is read); later interleavings need >1MB blocks (RateLimit callbacks fire per 1MB write buffer) and are not generated; what the deleted key itself reads afterwards is C10's subject",
         "C09: reader errors are injected by overwriting the type byte of one block (decoders reject it); block checksums are never validated by the reader, so a flipped payload byte is garbage-in and is not part of the check",
     ],
     "modelled": "Compactor.compact (output generation/sequence, per-key merge newest-wins with tombstones), writeNewFiles/write (roll-over at maxIndexEntries), cacheKeyIterator (dedup, chunking), "
-                "FileStore.replace as rename/remove steps, FileStore.Open (glob *.tsm), removeTmpFiles are modelled (theories/C09/Model.v); the block-level merge algorithm "
-                "(combine/merge fast path), DefaultPlanner, TSM index/byte layout, file-size roll-over, throttling and the scheduler are not modelled",
+                "FileStore.replace as rename/remove steps, FileStore.Open (glob *.tsm), removeTmpFiles are modelled (theories/C09/Model.v); the block-level iterator "
+                "(tsmBatchKeyIterator.Next for one key, sortBlocks/blocks.Less, merge<T> dedup decision, combine<T> windows with read marks and the pass-through fast path, chunk<T>) is modelled in "
+                "theories/C09/Blocks.v and DefaultPlanner.PlanLevel (findGenerations, inUse, level grouping, chunking, acquire) in theories/C09/Planner.v; Plan/PlanOptimize size rules, the legacy "
+                "tsmKeyIterator, iterator error paths, TSM index/byte layout, indirectIndex tombstone coalescing, file-size roll-over, throttling and the scheduler are not modelled",
     "assumptions": ["file names are %09d-%09d.tsm with generation < 10^9, so that path order = (generation, sequence) order",
-                    "all blocks of an input file are time-sorted and non-overlapping per key (what the writer produces)"],
+                    "all blocks of an input file are time-sorted and non-overlapping per key (what the writer produces)",
+                    "block level: every block is non-empty with strictly increasing int64 timestamps and its index entry is (first, last) timestamp (input_wfb, times_i64)",
+                    "block-level refinement theorem without the window-condition premise: sorted block list ordered by minTime (min_ordered)"],
 }
 
 
